@@ -270,3 +270,12 @@ Proof.
   intros Hin Hlt. apply run_task_In. split; auto. simpl.
   destruct (memk k ks); simpl; auto. apply N.leb_gt. auto.
 Qed.
+
+(* ---- lost release requests: a task whose request is lost is retried by the sender (it stays pending: any number
+   of partial runs [ERunSome] and finally [ERun]); a task lost for good never completes.  After the transaction ended,
+   every lock that is still there is one that a release task which has NOT completed would release ---- *)
+Lemma leftover_under_unfinished_tasks s l :
+  Inv s -> valid s = false -> In l (store s) -> exists t, In t (tasks s) /\ releases t l = true.
+Proof.
+  intros (HI & _ & _) Hv Hin. destruct (HI l Hin) as [[(B1 & _) _]|Ht]; [congruence|exact Ht].
+Qed.
